@@ -405,6 +405,16 @@ func (r *sysRun) start() bool {
 				}
 			}
 		}
+		if os.Getenv("VERIF_TRACK_CURSOR") != "" {
+			if pr, ok := value.(previewRequest); ok {
+				first := int32(-1)
+				if len(pr.list) > 0 && pr.list[0] != nil {
+					first = pr.list[0].Index()
+				}
+				vis := r.t != nil && r.t.hasPreviewWindow()
+				r.sim.Logf("  preview enqueue q=%q first=%d visible=%v", pr.query, first, vis)
+			}
+		}
 		if mr, ok := value.(MatchRequest); ok {
 			kind := "retry"
 			if util.EventType(evt) == reqReset {
